@@ -9,19 +9,19 @@ CHECKS = {
          'All histories of Add/Combine up to the stated depth on 2-6 accumulators, every split of every short stream with every merge order, and every split point of structured long streams with offset 1e9 are executed on the real code and compared with exact batch statistics.',
          'value alphabet {-2,0,3,1e9+1}; float tolerances are explicit forward-error bounds recorded in the evidence', '4/C13'),
  'C01': ('bounded-exhaustive enumeration of every (tie vector, allocation) class on the real MannWhitneyUTest vs an exact big.Int permutation-distribution model (model validated against literal subset enumeration)',
-         'Every pair of samples up to order/relabelling with n1+n2<=10 (thorough 13), 3 arrangements x 3 alternatives, plus complete structured families to 50+50 untied / 25+25 tied, is executed and compared with pair-count U and exact tails. The two-sided shortcut defect is a listed known finding matched by signature.',
+         'Every pair of samples up to order/relabelling with n1+n2<=10 (thorough 13), 3 arrangements x 3 alternatives, tied classes also written as zeros of both signs, overlapping windows of one series as aliased arguments (n1+n2<=12), plus complete structured families to 50+50 untied / 25+25 tied, is executed and compared with pair-count U and exact tails. The two-sided shortcut defect is a listed known finding matched by signature.',
          'default exact-method limits; tolerance 1e-9; values are rank indices (the test is rank based; invariance is decided by C03)', '4/C01'),
  'C02': ('bounded-exhaustive enumeration of every (N1,N2,T) on the real UDist vs exact big.Int counts; reference model replay-validated against definitional subset enumeration',
-         'Every (N1,N2,T) with N1+N2<=10 (thorough 14) and complete K=2/K=3/uniform/untied families up to 50+50 are evaluated on the whole half-integer grid and off-grid points against exact counts: PMF, CDF, mass, monotonicity, mirror law, Bounds, Step.',
+         'Every (N1,N2,T) with N1+N2<=10 (thorough 14) and complete K=2/K=3/uniform/untied families up to 50+50 are evaluated on the whole half-integer grid, one ulp either side of every grid point, off-grid points and |u| up to MaxFloat64 against exact counts: PMF, CDF, mass, monotonicity, mirror law, Bounds, Step; for N1+N2<=12 also after the caller rewrote the tie slice in place and with distributions of neighbouring sizes queried alternately.',
          'PMF constrained only at attainable points; tolerance 1e-9, monotone slack 1e-11', '4/C02'),
  'C03': ('bounded-exhaustive enumeration of sample classes x 25 configurations of the two limit variables on the real MannWhitneyUTest; all permutations; monotone maps; swap law; error cases; normal-branch formula oracle',
-         'Every class with n1+n2<=8 (thorough 10) under all 25 limit configurations (same data through exact and normal method), every permutation for n1+n2<=6 (8), six increasing maps, swap law, argument snapshots including spare capacity, every error combination, and a complete size family to 600x600.',
+         'Every class with n1+n2<=8 (thorough 10) under all 25 limit configurations (same data through exact and normal method), every permutation for n1+n2<=6 (8), six increasing maps, swap law, argument snapshots including spare capacity, zeros of both signs, every pair of overlapping windows as aliased arguments, calls of other sizes in between, both samples negated in place, every error combination, and a complete size family to 600x600.',
          'normal-branch oracle: exact rational variance + math.Erfc (the normal CDF itself is C05\'s subject); range slack 1e-12', '4/C03'),
  'C06': ('bounded-exhaustive enumeration of every (N,K,Draws) / (N,P) and every k against exact big.Rat / 600-bit references',
-         'Every hypergeometric (N,K,Draws) with N<=40 (thorough 80), every binomial N<=60 (100) on 108 values of P and the complete family N in {100,250,500,999,1000}, at every integer and half-integer k from below to above the support.',
+         'Every hypergeometric (N,K,Draws) with N<=40 (thorough 80), every binomial N<=70 (100) on ~310 values of P (i/200, geometric ladders 10^(-j/4) to 0 and 1, non-round values) and the complete family N in {100,250,500,999,1000}, at every integer and half-integer k from below to above the support.',
          'tolerance 1e-10; binomial reference in 600-bit big.Float on the exact value of the float P, cross-checked against big.Rat for N<=12', '4/C06'),
  'C08': ('bounded-exhaustive lattice enumeration (truly exhaustive for Choose/Lchoose n<=1000) against closed-form 640-bit references and gonum/mathext',
-         'BetaInc on a 23x23 (thorough 32x32) parameter lattice x ~82 arguments including both sides of the branch switch-over, GammaInc/GammaIncComp on 13 (23) values of a x ~92 arguments including x=a+1 +-2 ulp, all 503k (n,k) pairs for Choose/Lchoose, Beta on the lattice, Sign on 11 values.',
+         'BetaInc on a 23x23 (thorough 32x32) parameter lattice x ~82 arguments including both sides of the branch switch-over, GammaInc/GammaIncComp on 13 (23) values of a x ~300 arguments (a-relative, absolute k/4 to 40, a+j*sqrt(a)) including x=a+1 +-2 ulp, all 503k (n,k) pairs for Choose/Lchoose, Beta on the lattice, Sign on 11 values.',
          'gonum/mathext (cephes lineage) is the oracle for non-integer parameters; its agreement with the closed forms is measured on every integer point of the lattice', '4/C08'),
  'C18': ('bounded-exhaustive enumeration of all small digraphs/multigraphs, subgraph requests, graph pairs and strings + explicit-state BFS over NodeMarks histories (state = model set + reflection-read storage length), definitional references',
          'All digraphs on <=4 (5) nodes x roots, all multigraphs on <=3 nodes with lists <=3, structured graphs up to 100000 nodes crossing every growth boundary, every Keep/Remove request on every 3-node digraph, every pair of small multigraphs, every string of length <=5 over the escaping alphabet, and all Mark/Unmark histories to depth 4 (thorough: the complete reachable state space) from both initial states.',
@@ -36,25 +36,25 @@ CHECKS = {
          '25 (thorough 81) normal parameter sets x 641 arguments over +-40 sigma x 277 p down to 1e-300; 13 (23) t distributions x ~750 arguments including 10^(-j/4) down to 1e-12 and +-1e8; accuracy, range, monotonicity, symmetry, limits, PDF integral per cell, InvCDF round trip, moments, Bounds, Rand against a twin source; DeltaDist step/quantile.',
          'between lattice points only monotonicity at lattice resolution is decided; round trip asserted where the quantile is representable (see DESIGN 3a)', '4/C05'),
  'C09': ('bounded-exhaustive sequence x weight-vector enumeration + explicit-state BFS over Sample histories (Sort/Copy/mark/reverse/rotate) with exact big.Rat oracle',
-         'Every sequence of length<=5 (6) over 5 values x 4 offsets, every weight vector over {0,1,2,3} for length<=4 (5), GeoMean on powers of two plus the NaN rule, structured n to 200, all Sample histories to depth 4 (5) from every initial sample of length<=3, vec helpers on a small complete lattice.',
+         'Every sequence of length<=5 (6) over 5 values x 4 offsets, every weight vector over {0,1,2,3} for length<=4 (5), GeoMean on powers of two plus the NaN rule, structured n to 200, all Sample histories (Sort/Copy/mark/reverse/rotate/rewrite-in-place) to depth 4 (5) from every initial sample of length<=3, vec helpers on a small complete lattice incl. results retained across later calls.',
          'weighted Variance/StdDev/MeanCI are documented panics (not called); weighted GeoMean compared on positive data only', '4/C09'),
  'C10': ('bounded-exhaustive sequence x q-lattice enumeration of Sample.Quantile against an exact rational Hyndman-Fan type 8 model',
-         'Every sequence of length 1..6 (7) over {-1,0,2,7}, structured n in {7..12,50,199,200}, q on -0.5..1.5 step 1/48 plus every break point +-1 ulp, both Sorted settings, bitwise order independence, unmodified inputs incl. spare capacity, weighted quantile with q on every cumulative weight +-1 ulp.',
+         'Every sequence of length 1..6 (7) over {-1,0,2,7}, structured n in {7..12,50,199,200}, q on -0.5..1.5 step 1/48 plus every break point +-1 ulp, both Sorted settings, bitwise order independence, unmodified inputs incl. spare capacity, weighted quantile with q on every cumulative weight +-1 ulp; queries on unrelated samples in between, the sample rewritten in place and queried again, empty samples with every flag combination.',
          'tolerance 4 eps (n+1)(range+max|x|); weighted ties grouped', '4/C10'),
  'C11': ('bounded-exhaustive (n,q,c) enumeration of QuantileCI against exact big.Rat binomial masses (n<=30) and a 200-bit normal construction with an independent normal quantile (n>30)',
-         'n=1..30 and 7 (13) larger n x 43 (83) q x ~200+3(n+1) confidence levels including every cumulative mass of the greedy accumulation +-1 ulp; structure, exact Confidence, >=c, mode, minimality, nesting, Ambiguous law; SampleCI on every permutation of samples of size<=5.',
+         'n=1..30 and 10 (16) larger n x 50 (90) q x ~210+8(n+1) confidence levels including every cumulative mass of the greedy accumulation +-1 ulp and +-3e-12..5e-10, levels up to the last float before 1, calls for other n in between; structure, exact Confidence, >=c, mode, minimality, nesting, Ambiguous law; SampleCI on every permutation of samples of size<=5.',
          'c<=0 outside the domain (statement self-inconsistent there); half-integer ambiguity zone 1e-7 for n>30', '4/C11'),
  'C14': ('bounded-exhaustive edge-alphabet enumeration + explicit-state BFS over Add histories (state = counter vector) with HistogramQuantile evaluated for every rank in every state',
-         'LinearHist nbins 1..5 (50) x 5 ranges and 108 LogHist shapes: single Add of every edge +-2 ulp, mid-points, 16 positions in the strip below the first edge, far values; all Add histories to depth 5 (6) over a 7-value alphabet; 500-Add structured streams; BinToValue monotone and interpolating.',
+         'LinearHist nbins 1..5 (50) x 5 ranges and 108 LogHist shapes: single Add of every edge +-2 ulp, mid-points, 16 positions in the strip below the first edge, far values; all Add histories to depth 5 (6) over a 7-value alphabet; 500-Add structured streams; every ordered pair of small shapes used alternately; BinToValue monotone and interpolating.',
          'rank convention (0- or 1-based) left open by the statement: either accepted consistently per state; 4-ulp edge ambiguity (statement)', '4/C14'),
  'C12': ('bounded-exhaustive sample x kernel x bandwidth x boundary-configuration enumeration of the real KDE on an argument lattice against independently evaluated, fully folded kernel sums',
-         'Every multiset of size 1..3 over 4 values plus structured samples of 10/40 values, weighted and not, 3 kernels, 4 bandwidths, 16 boundary configurations (none, lower, upper, both; touching/0.5h/10h), ~150-400 arguments each including every kink and its images +-1 ulp: PDF/CDF vs formula, monotone, limits, zero outside, per-cell integral = CDF difference, Bounds mass, lazy Scott bandwidth, Scott/Silverman formulas.',
+         'Every multiset of size 1..3 over 4 values plus structured samples of 10/40 values, weighted and not, as given and ascending with Sorted set, 3 kernels, 4 bandwidths, 16 boundary configurations (none, lower, upper, both; touching/0.5h/10h), ~150-400 arguments each including every kink and its images +-1 ulp: PDF/CDF vs formula, monotone, limits, zero outside, per-cell integral = CDF difference, Bounds mass, lazy Scott bandwidth, Scott/Silverman formulas.',
          'needle-thin doubly bounded supports (< h/50) and a delta kernel with an upper boundary one ulp above a sample are outside the explored domain (see DESIGN 3a)', '4/C12'),
  'C15': ('bounded-exhaustive design enumeration of LinearLeastSquares/PolynomialRegression/LOESS against exact big.Rat normal-equation solutions of the float64 design matrix',
-         'Every subset of size 3..6 (8) of an 8-point lattice x2 scalings + n=40, 7 generating polynomials + a table, degrees 0..6, two non-polynomial bases, weighted/unweighted: parameters vs exact optimum, backward-error orthogonality, no-descent perturbations, F vs coefficients; LOESS on every subset of size 4..6 (7), degrees 0..2, every window size, every permutation for n<=5 (6): exact tricube local fit, locality, order independence, unmodified inputs.',
+         'Every subset of size 3..6 (8) of an 8-point lattice x2 scalings + n=40, 7 generating polynomials + a table, degrees 0..6, 8 other bases (single terms, no constant, constants other than 1), weighted/unweighted, ys rewritten in place between fits: parameters vs exact optimum, backward-error orthogonality, no-descent perturbations, F vs coefficients; LOESS on every subset of size 4..6 (7), degrees 0..2, every window size, every permutation for n<=5 (6): exact tricube local fit, locality, order independence, unmodified inputs.',
          'designs with exact Gram condition number > 1e8 are counted and skipped ("well-conditioned" decided by the reference)', '4/C15'),
  'C16': ('bounded-exhaustive domain x argument x clamp-configuration enumeration of Linear/Log/QQ against exact rational and 320-bit logarithm references',
-         'All 169 (529) ordered (Min,Max) pairs over signed magnitudes 1e-12..1e12 and 0, ~27 arguments inside and to 100 widths outside, 8 y values, clamp off/on/off/on transitions, NewLog on every (min,max) x 6 bases, 64 QQ pairings.',
+         'All 169 (529) ordered (Min,Max) pairs over signed magnitudes 1e-12..1e12 and 0, ~27 arguments inside and to 100 widths outside, 8 y values, clamp off/on/off/on transitions, every scale built in several ways (literal with 4-5 bases; NewLog/Nice/use on another domain, then Min and Max assigned), magnitudes 2^-1022..MaxFloat64 for Log, NewLog on every (min,max) x 6 bases, 64 QQ pairings.',
          'finite arguments; numeric (not bitwise) comparison of -0/+0', '4/C16'),
  'C17': ('exhaustive enumeration of monotone step tickers x options x guesses for FindLevel; bounded-exhaustive domain x option lattice for Ticks/Nice against definitional tick sets',
          'FindLevel: all 715 non-increasing count functions on levels -4..4 x Max 0..3 x 121 level-limit pairs x 17 guesses (5.9M calls) against the brute-force lowest admissible level. Ticks/Nice: 12 widths x 9 centres x 6 bases x Max 1..20 x 4 level limits (Linear), 6 x 7 x 5 bases x 2 signs x Max 1..20 x 3 limits (Log): ascending, inside, complete, nice, finest level, major in minor, CountTicks laws, Nice never shrinks / finite / idempotent / ends.',
@@ -63,8 +63,8 @@ CHECKS = {
          'All piece sequences of length<=3 with mass x 3 widths per piece x 3 height splits x 7 shifts x 3 scales x 2 Bounds variants (16k programs), 59 built-in distributions; y in {k/64, 1e-12, 1-1e-12, every jump and flat level +-1 ulp, ends, out of range}; Rand driven by a scripted source over the complete lattice y=k/256 including the skipped y=0, exact Kolmogorov distance of the draws.',
          'accuracy 1e-9 relative + 1e-12 (+ the rounding noise of the user CDF itself); the statistical KS clause is replaced by an exact distance over a complete lattice', '4/C07'),
  'C20': ('stateless model checking of the implementation: cooperative scheduler over statement-level scheduling points injected into a go build -overlay copy of the library, iterative preemption bounding, shared-state write monitor with a commutativity reduction; exhaustive call-sequence enumeration against fresh-process references; separate free-running -race pass',
-         '37-entry call alphabet covering every exported function/method that takes a slice, Sample, graph or distribution. Purity: every entry x 40 (125) fixture variants with deep bitwise snapshots. History independence: all 37^2 (37^3) call sequences, each call compared with its fresh-process result, package-level state (15 variables located by parsing the current sources) hashed. Schedules: f||f for every entry with all schedules of <=1 (2) preemptions at ~1.7k injected scheduling points, all 820 pairs monitored at every point and discharged by commutativity when no step writes shared state (thorough: explored). -race: 16 goroutines x 50 (200) rounds.',
-         'statement-level interleavings under sequential consistency; the -race pass is dynamic detection; map-iteration order is sampled by repetition', '4/C20'),
+         '46-entry call alphabet covering every exported function/method that takes a slice, Sample, graph or distribution. Purity: every entry x 40 (125) fixture variants with deep bitwise snapshots. History independence: all n^2 (n^3) call sequences over the alphabet, each call compared with its fresh-process result, package-level state (15 variables located by parsing the current sources) hashed. Schedules: f||f for every entry with all schedules of <=1 (2) preemptions at ~1.7k injected scheduling points, all 820 pairs monitored at every point and discharged by commutativity when no step writes shared state (thorough: explored). -race: 16 goroutines x 50 (200) rounds.',
+         'statement-level interleavings under sequential consistency; the -race pass is dynamic detection; map-iteration order is a harness-controlled answer (6 order modes, all orders for maps of <=3 keys)', '4/C20'),
 # --- end of table ---
 }
 NOT_BUILT = 'check not built yet (work in progress; no claim made)'
